@@ -277,3 +277,27 @@ Definition check_etcd (pinned : quirks) (c : ecase) : result :=
 
 Definition explain_etcd (pinned : quirks) (c : ecase) :=
   (etcd_run pinned (eoracle c) (ec_alive c) (if ec_alive c then users_of (ec_init c) else []) (eops c), eguard c).
+
+(** ** group "x": the same credentials presented to several instances / generations in sequence;
+       every step is a [vcase] whose configuration is the one of the instance at that moment *)
+Record xcase := { x_steps : list vcase }.
+
+Definition check_x (pinned : quirks) (c : xcase) : result :=
+  let rs := map (check_v pinned) (x_steps c) in
+  let corr := forallb (fun r => fst (fst (fst r))) rs in
+  let prop := forallb (fun r => snd (fst (fst r))) rs in
+  let failing := filter (fun r => negb (snd (fst (fst r)))) rs in
+  let delivered := filter v_delivered (x_steps c) in
+  (corr, prop,
+   match delivered with
+   | [] => 0%N
+   | _ => (1 + (if existsb (fun s => ob_accepted (v_obs s)) delivered then 1 else 0)
+             + (if existsb (fun s => negb (ob_accepted (v_obs s))) delivered then 2 else 0))%N
+   end,
+   match failing with
+   | [] => 0%N
+   | r :: _ => if forallb (fun r' => (snd r' =? snd r)%N) failing then snd r else 0%N
+   end).
+
+Definition explain_x (pinned : quirks) (c : xcase) :=
+  map (fun s => (run pinned s, run ideal s, v_expect s)) (x_steps c).
